@@ -46,7 +46,8 @@ BIAS = {
     "C02": {"set_platform": 10, "flip3": 4, "conv_obj": 3, "group": 2, "ungroup": 1,
             "resequence": 1, "set_port_nr": 1, "set_protocol_nr": 1, "copy": 1,
             "export_import": 1, "reparse": 1, "set_members": 1, "insert": 2, "append": 1,
-            "set_ports": 1, "items_self": 1},
+            "set_ports": 1, "items_self": 1, "set_item_seq": 2, "reverse": 1, "sort": 1,
+            "permute_popins": 1},
     "C04": {"shadow_triple": 10, "delete_shadow": 3, "shading": 3, "shadow_of": 1, "group": 2,
             "ungroup": 1, "resequence": 1, "insert": 2, "append": 2, "set_platform": 1,
             "set_members": 5, "copy": 1, "permute_popins": 1, "set_note": 2,
@@ -674,6 +675,26 @@ class AclMachine(Machine):
                 self.probes["abort_atomic"] += 1
             else:
                 self.probes[f"torn_after_abort[{k}]"] += 1
+                if k == "resequence":
+                    # an overflowing resequence has renumbered part of the ACL and nothing else:
+                    # the caller may well go on with that object, so the history continues on it
+                    # with the numbers it now carries (state left behind by the aborted call -
+                    # flags, counters - stays reachable)
+                    m2 = m.clone()
+                    lv = leaves(acl)
+                    flat = m2.flat()
+                    if len(lv) == len(flat) and len(acl.items) == len(m2.blocks):
+                        for r_, x_ in zip(flat, lv):
+                            r_.seq = x_.sequence
+                        for b_, it_ in zip(m2.blocks, acl.items):
+                            b_.seq = it_.sequence
+                        slot["m"] = m2
+                        try:
+                            self.check_state(slot, "after aborted resequence", owner="C17", op=op)
+                            self.probes["torn_adopted[resequence]"] += 1
+                            return ename
+                        except Violation:
+                            slot["m"] = m
                 # the caller discards the torn object and rebuilds it from the exported pre-state
                 slot["acl"] = make_twin(pre_data)
                 slot["m"] = apply_model(m, {"op": "export_import"}).model
@@ -1125,6 +1146,8 @@ class AclMachine(Machine):
                 return type(ex).__name__  # documented: a single ACE cannot hold several ports
             if op["cls"] in ("AddressAg", "AddrGroup") and b == "ios" and op.get("ncw"):
                 self.faults["abort[conv_obj]"] += 1
+                if op["cls"] == "AddrGroup":
+                    return self._conv_retry(obj, a, b)
                 return type(ex).__name__  # non-contiguous member cannot become a subnet
             self._fail("C02", "C02.converts", f"{op['cls']}({op['line']!r}).platform={b} raised "
                                               f"{type(ex).__name__}: {ex}", cls=op["cls"])
@@ -1144,6 +1167,40 @@ class AclMachine(Machine):
             self._fail("C02", "C02.converge", f"{op['cls']} there/back/there: {t1!r} vs "
                                               f"{obj.line!r}", cls=op["cls"])
         return "ok"
+
+    def _conv_retry(self, ag, a, b):
+        """After the documented refusal (a non-contiguous member cannot become an IOS subnet) the
+        caller removes the offending members through the list API and converts again: that must
+        convert the remaining members."""
+        keep = [it for it in ag.items if it.ipnet is not None]
+        want = []
+        for it in keep:
+            n = it.ipnet
+            want.append((int(n.network_address), int(n.netmask)))
+        if not keep:
+            return "ValueError"
+        for it in list(ag.items):
+            if it.ipnet is None:
+                ag.items.remove(it)
+        try:
+            ag.platform = b
+        except DOCUMENTED as ex:
+            self._fail("C02", "C02.converts", f"AddrGroup: conversion to {b} repeated after the "
+                                              f"offending member was removed raised "
+                                              f"{type(ex).__name__}: {ex}", cls="AddrGroup")
+        try:
+            got = [self._member_cube(" ".join(ln.split()), b) for ln in ag.line.split("\n")[1:]]
+        except (ValueError, IndexError) as ex:
+            self._fail("C02", "C02.valid-target", f"AddrGroup converted to {b} on retry renders "
+                                                  f"{ag.line!r}: {ex}", cls="AddrGroup")
+        exp_ = [("c", nw, mk) for nw, mk in want]
+        if got != exp_ or ag.platform != b or any(it.platform != b for it in ag.items):
+            self._fail("C02", "C02.meaning", f"AddrGroup converted to {b} on retry: members "
+                                             f"{ag.line!r} (platforms "
+                                             f"{[it.platform for it in ag.items]})",
+                       cls="AddrGroup")
+        self.probes["conv_retry_after_refusal"] += 1
+        return "retried"
 
     @staticmethod
     def _member_cube(line, platform):
